@@ -259,6 +259,18 @@ func runCase1(input string) string {
 	}
 	defer func() { _ = memfs.RemoveAll(dir) }()
 
+	if pre := m["pre"]; identRe.MatchString(pre) {
+		// another, valid, file that defines the local `pre` is parsed first: nothing of it may be visible afterwards
+		pp := dir + "/prelude.hcl"
+		text := "locals {\n  " + pre + " = \"defined by another file\"\n}\nrequest \"p\" {\n  method = \"GET\"\n  uri = local." + pre + "\n  headers = {}\n}\nscenario \"s\" {\n  requests = [\"p\"]\n}\n"
+		if err := afero.WriteFile(memfs, pp, []byte(text), 0o644); err != nil {
+			panic(err)
+		}
+		if d, _ := readCfg(pp); d == "ERR" {
+			return "BADINPUT the prelude file is refused"
+		}
+	}
+
 	hd, hcfg := readCfg(hp)
 	yd, ycfg := readCfg(yp)
 	ytok := yd
@@ -855,7 +867,7 @@ func line(sx int64, mal int, d *Node) string {
 func generate(r *rand.Rand, tier string) []string {
 	n := 1500
 	if tier == "thorough" {
-		n = 100000
+		n = 70000
 	}
 	g := &gen{r: r}
 	var out []string
@@ -886,7 +898,7 @@ func generate(r *rand.Rand, tier string) []string {
 	// files with a piece that does not evaluate (must be refused as a whole)
 	nb := 150
 	if tier == "thorough" {
-		nb = 4000
+		nb = 3000
 	}
 	for i := 0; i < nb; i++ {
 		if l := brokenLine(r, r.Int63n(1<<40), g.describe()); l != "" {
